@@ -119,7 +119,7 @@ def handle (ts : List String) : String :=
             let k0 := waveNumber pi (fl freq)
             out ((rng n).flatMap fun p => (rng n).flatMap fun q =>
               let s := memo (N / 2 + 1) fun k => ibaPhase ft o.coeff k0 o.eps p q (fl mus) (fl mui) (dphiGrid pi N k)
-              (rng (mmax + 1)).map fun m => ftEvenCoef n N p q m s)
+              (rng (mmax + 1)).map fun m => ftEvenCoef piLit n N p q m s)
       | some (.error e, _) => err e
       | none => "ERR parse"
   -- SCE family: epsilon_eff model ("mg" = maxwell_garnett_for_spheres, "pvs" = polder_van_santen + guard), A2 on the line
@@ -161,7 +161,7 @@ def handle (ts : List String) : String :=
         out ((rng n).flatMap fun p => (rng n).flatMap fun q =>
           let s := memo (N / 2 + 1) fun k =>
             (scePhase (fl norm) ⟨v.getD (2 * k) 0.0, v.getD (2 * k + 1) 0.0⟩ p q (fl mus) (fl mui) (dphiGrid pi N k)).re
-          (rng (mmax + 1)).map fun m => ftEvenCoef n N p q m s)
+          (rng (mmax + 1)).map fun m => ftEvenCoef piLit n N p q m s)
   | _ => "ERR parse"
 
 end Smrt.Driver.C10
